@@ -886,6 +886,7 @@ func (s *Subscription) reaccess(t *rescache.Throttle) {
 // already in flight was asked for before the reaccess, and must not be cached
 // either once it arrives.
 func (s *Subscription) clearAccess() {
+	verifNote("accClear", "cid", s.c.CID(), "rid", s.rid, "sp", s, "had", s.access != nil, "called", s.flags&flagAccessCalled != 0)
 	s.access = nil
 	if s.flags&flagAccessCalled != 0 && s.flags&flagAccessStale == 0 {
 		s.flags |= flagAccessStale
@@ -901,6 +902,7 @@ func (s *Subscription) takeAccessCallbacks() (cbs []func(*rescache.Access), stor
 	s.accessCallbacks = nil
 	stale := s.flags&flagAccessStale != 0
 	s.flags &= ^(flagAccessCalled | flagAccessStale)
+	verifNote("accTake", "cid", s.c.CID(), "rid", s.rid, "sp", s, "count", len(cbs), "stale", stale, "from", s.accessStaleFrom)
 	if !stale {
 		return cbs, true
 	}
@@ -921,6 +923,7 @@ func parseRID(rid string) (name string, query string) {
 
 func (s *Subscription) loadAccess(cb func(*rescache.Access), t *rescache.Throttle) {
 	if s.access != nil {
+		verifNote("accLoad", "cid", s.c.CID(), "rid", s.rid, "sp", s, "path", "cached")
 		cb(s.access)
 		return
 	}
@@ -928,10 +931,12 @@ func (s *Subscription) loadAccess(cb func(*rescache.Access), t *rescache.Throttl
 	s.accessCallbacks = append(s.accessCallbacks, cb)
 
 	if s.flags&flagAccessCalled != 0 {
+		verifNote("accLoad", "cid", s.c.CID(), "rid", s.rid, "sp", s, "path", "joined")
 		return
 	}
 
 	s.flags |= flagAccessCalled
+	verifNote("accLoad", "cid", s.c.CID(), "rid", s.rid, "sp", s, "path", "issued")
 
 	if t != nil {
 		t.Add(func() {
@@ -945,6 +950,7 @@ func (s *Subscription) loadAccess(cb func(*rescache.Access), t *rescache.Throttl
 					// Only store in case of an actual result or system.accessDenied error
 					if store && (access.Error == nil || access.Error.Code == reserr.CodeAccessDenied) {
 						s.access = access
+						verifNote("accStore", "cid", s.c.CID(), "rid", s.rid, "sp", s)
 					}
 
 					for _, cb := range cbs {
@@ -965,6 +971,7 @@ func (s *Subscription) loadAccess(cb func(*rescache.Access), t *rescache.Throttl
 				// Only store in case of an actual result or system.accessDenied error
 				if store && (access.Error == nil || access.Error.Code == reserr.CodeAccessDenied) {
 					s.access = access
+					verifNote("accStore", "cid", s.c.CID(), "rid", s.rid, "sp", s)
 				}
 
 				for _, cb := range cbs {
